@@ -133,7 +133,7 @@ PROPS["C16"] = {
     "min": {"quick": {"requests_served_after_a_failed_read": 4, "exhaustive_sequences": 3_900_000, "concurrent_histories": 200, "concurrent_hits_checked": 1000, "handler_requests": 100, "real_sleeps": 2, "multi_host_answers_own_file": 150, "second_directory_route_answers_own_file": 150},
             "thorough": {"requests_served_after_a_failed_read": 4, "exhaustive_sequences": 90_000_000}},
     "assumptions": [],
-    "level_text": "Every operation sequence of length 4 (5 thorough) over 3 keys x 2 hosts x 3 sizes is executed on the real Cache for 12 limit configurations with a shadow-map monitor probing all keys after every operation; long random sequences, concurrent histories through the RwLock (per-key interval check) and the two real handlers over changing files complete the picture.",
+    "level_text": "Every operation sequence of length 4 (5 thorough; 6 thorough for the tightest configuration) over 3 keys x 2 hosts x 3 sizes is executed on the real Cache for 12 limit configurations with a shadow-map monitor probing all keys after every operation; long random sequences, concurrent histories through the RwLock (per-key interval check) and the two real handlers over changing files complete the picture.",
     "level_note": "Trusted: the shadow map and interval checker in c16.rs; the one-second cache clock bounds what can be said about staleness (limit + 1 s).",
     "technique": "runtime monitoring: shadow-state monitor over bounded-exhaustive operation sequences; offline interval (linearizability-style) check of concurrent histories",
 }
@@ -188,7 +188,7 @@ PROPS["C20"] = {
     "min": {"quick": {"rejecting_condition_returns_and_rebinds_ok": 5, "fd_exhaustion_survived_and_serving": 10, "fd_exhaustion_signal_in_shortage_returns": 1, "fd_shortages_driven": 14, "scenarios": 180, "returns_observed": 180, "rebinds_ok": 180, "in_flight_responses_complete": 150},
             "thorough": {"rejecting_condition_returns_and_rebinds_ok": 5, "fd_exhaustion_survived_and_serving": 1, "scenarios": 1400}},
     "assumptions": [],
-    "level_text": "Real Apps are started on loopback, put into generated traffic states (idle, half-sent, running handlers, large responses, WebSockets, occupied pools), signalled at varied instants with delays injected at the accept-loop failpoints, and observed: time until run returns, re-bind of the port, completeness of every in-flight response whose handler had started before the signal; plus connection conditions that are slow or reject everything, and a transient descriptor exhaustion (run must not return before the signal).",
+    "level_text": "Real Apps are started on loopback, put into generated traffic states (idle, half-sent, running handlers, large responses, WebSockets, occupied pools), signalled at varied instants with delays injected at the accept-loop failpoints, and observed: time until run returns, re-bind of the port, completeness of every in-flight response whose handler had started before the signal; plus connection conditions that are slow or reject everything, and transient descriptor exhaustion, once or several times in a row (run must not return before the signal, the server serves again, and a signal sent inside a shortage is honoured within 2 s).",
     "level_note": "Trusted: hvcommon::shutlab; the 10 s progress bound; loopback TCP.",
     "technique": "runtime monitoring: bounded-progress monitor + wire monitor of in-flight responses under generated traffic states and failpoint delays",
 }
@@ -215,7 +215,7 @@ PROPS["C09"] = {
     "min": {"quick": {"concurrent_rotations_with_overlapping_exchanges": 20, "exchanges": 3000, "cut_responses": 2500, "complete_responses": 100, "stall_and_refusal_cases": 40, "malformed_upstream_cases": 200, "upstream_records_checked": 2000, "proxy_handler_calls": 100, "load_balancer_histories": 200, "late_bytes_cases": 15, "concurrent_rotation_rounds": 35, "slow_valid_cases_relayed": 10, "rotation_with_refusals_exact": 35, "refusals_interleaved": 60},
             "thorough": {"concurrent_rotations_with_overlapping_exchanges": 20, "exchanges": 40_000}},
     "assumptions": [],
-    "level_text": "proxy_request and proxy_handler are executed against a scripted upstream for every enumerated fault: each valid response cut at every byte offset, non-HTTP answers, refusal, silence, close, trickle; the returned response and its latency are judged against the reference reader's verdict on what the upstream actually sent, and the upstream's record of the relayed request is compared with the client's request; overlapping proxy_handler calls are observed at the upstreams (strict rotation, exchanges in progress at once).",
+    "level_text": "proxy_request and proxy_handler are executed against a scripted upstream for every enumerated fault: each valid response cut at every byte offset, non-HTTP answers, refusal, silence, close, trickle; the returned response and its latency are judged against the reference reader's verdict on what the upstream actually sent, and the upstream's record of the relayed request is compared with the client's request; overlapping proxy_handler calls are observed at the upstreams (strict rotation, exchanges in progress at once); slow but complete valid responses inside the budget must be relayed, and locally refused requests must not take a turn of the rotation.",
     "level_note": "Trusted: hvcommon::net scripted server, httpref; wall-clock bound timeout + 3 s.",
     "technique": "runtime monitoring: fault enumeration against a scripted peer with return-value, latency and peer-side event-log oracles; conservation check for round-robin",
 }
